@@ -13,9 +13,15 @@
 // (open/delta/snapshot are cache-only and acknowledged without a durable
 // write; close/error/cancel are durable and merge the cached snapshot), then a
 // "leader cache loss" (cache reset after restore, a brand new leader node with
-// an empty cache, route-authority loss clearing the hash slot, restore pause /
-// resume), optionally further cache-only events that arrive after the loss,
-// then stream.finish (payload without a snapshot).
+// an empty cache, restore pause / resume, and loss of local authority over the
+// channel's hash slot H through real routing transitions installed with
+// Node.updateRouteAuthorityTable: Slot leader moves to node 2 and back; H is
+// rebalanced to a Slot led by node 2 and back with every Slot leader unchanged;
+// H is rebalanced away and this node is later elected leader of the target
+// Slot; optionally the interim leader — a second Node with its own cache on the
+// same durable proposer — acknowledges events meanwhile), optionally further
+// cache-only events that arrive after the loss, then stream.finish (payload
+// without a snapshot) on the node that has authority again.
 //
 // Oracle (from the statement; observable at the DB):
 //
@@ -53,25 +59,44 @@ import (
 
 const c40HashSlotCount = 4
 
-func c40ControlSnapshot() control.Snapshot {
+// c40ControlSnapshot: two data nodes, two Slots (Slot 1 preferred/led by node 1,
+// Slot 2 by node 2), four hash slots: 0,1 -> Slot 1 and 2,3 -> Slot 2. With
+// moved=true hash slot h is rebalanced to Slot 2 (no Slot leader involved).
+func c40ControlSnapshot(revision uint64, moved bool, h uint16) control.Snapshot {
+	owner := []uint32{1, 1, 2, 2}
+	if moved {
+		owner[h] = 2
+	}
+	ranges := []control.HashSlotRange{}
+	for i, slot := range owner {
+		if n := len(ranges); n > 0 && ranges[n-1].SlotID == slot {
+			ranges[n-1].To = uint16(i)
+			continue
+		}
+		ranges = append(ranges, control.HashSlotRange{From: uint16(i), To: uint16(i), SlotID: slot})
+	}
 	return control.Snapshot{
-		Revision:     1,
+		Revision:     revision,
 		ControllerID: 1,
 		Nodes: []control.Node{
 			{NodeID: 1, Addr: "127.0.0.1:1001", Roles: []control.Role{control.RoleData}, Status: control.NodeAlive},
 			{NodeID: 2, Addr: "127.0.0.1:1002", Roles: []control.Role{control.RoleData}, Status: control.NodeAlive},
 		},
-		Slots:     []control.SlotAssignment{{SlotID: 1, DesiredPeers: []uint64{1, 2}, ConfigEpoch: 1, PreferredLeader: 1}},
-		HashSlots: control.HashSlotTable{Revision: 1, Count: c40HashSlotCount, Ranges: []control.HashSlotRange{{From: 0, To: c40HashSlotCount - 1, SlotID: 1}}},
+		Slots: []control.SlotAssignment{
+			{SlotID: 1, DesiredPeers: []uint64{1, 2}, ConfigEpoch: 1, PreferredLeader: 1},
+			{SlotID: 2, DesiredPeers: []uint64{1, 2}, ConfigEpoch: 1, PreferredLeader: 2},
+		},
+		HashSlots: control.HashSlotTable{Revision: revision, Count: c40HashSlotCount, Ranges: ranges},
 	}
 }
 
-func c40Router(leader uint64, term uint64) (*routing.Router, error) {
+// c40Router builds the initial routing state every node starts from.
+func c40Router() (*routing.Router, error) {
 	router := routing.NewRouter()
-	if err := router.UpdateControlSnapshot(c40ControlSnapshot()); err != nil {
+	if err := router.UpdateControlSnapshot(c40ControlSnapshot(1, false, 0)); err != nil {
 		return nil, err
 	}
-	router.UpdateSlotLeaders([]routing.SlotStatus{{SlotID: 1, Leader: leader, LeaderTerm: term}})
+	router.UpdateSlotLeaders([]routing.SlotStatus{{SlotID: 1, Leader: 1, LeaderTerm: 9}, {SlotID: 2, Leader: 2, LeaderTerm: 9}})
 	return router, nil
 }
 
@@ -103,8 +128,15 @@ func (p *c40Proposer) ProposeResult(ctx context.Context, req propose.Request) ([
 
 func (p *c40Proposer) callCount() int { p.mu.Lock(); defer p.mu.Unlock(); return p.calls }
 
-func c40NewNode(router *routing.Router, proposer *c40Proposer, coalesce bool) *Node {
-	n := &Node{cfg: Config{NodeID: 1}, router: router, messageEventStreamCache: newMessageEventStreamCache(0), proposer: proposer}
+// c40NewNode builds a node with its OWN router in the initial routing state;
+// routing transitions are installed through Node.updateRouteAuthorityTable, the
+// production path that also runs the lost-local-authority cache scan.
+func c40NewNode(nodeID uint64, proposer *c40Proposer, coalesce bool) *Node {
+	router, err := c40Router()
+	if err != nil {
+		panic(err)
+	}
+	n := &Node{cfg: Config{NodeID: nodeID}, router: router, messageEventStreamCache: newMessageEventStreamCache(0), proposer: proposer}
 	if coalesce {
 		n.messageEventFinishCoalescer = newMessageEventFinishCoalescer(defaultMessageEventFinishCoalesceWindow)
 	}
@@ -164,7 +196,7 @@ func TestVerifC40FinishMidstream(t *testing.T) { c40RunFinish(t, "finish_midstre
 func c40RunFinish(t *testing.T, unit string, midOnly bool) {
 	r := verifkit.Start(t, "C40", unit)
 	defer r.Finish()
-	r.SetRule("One case = one stream message on a partially constructed cluster.Node (real stream cache, real finish path, proposer = real fsm on a real meta DB): 1-3 lanes, 2-12 cache-only events (open, text delta, JSON snapshot) with duplicate ids, optional durable close/error/cancel of a lane, then a leader cache loss of a random kind (none | reset-after-restore | new leader node with empty cache | route-authority loss | restore pause+resume) either right before stream.finish (unit finish) or followed by 1-4 more cache-only events of the same message (unit finish_midstream), then stream.finish directly or through the finish coalescer. Non-trivial = acknowledged non-durable deltas existed when the cache was lost; distinct = (loss kind, position, coalescer, lanes, lanes with outstanding deltas, explicit terminals, events after loss per lane).")
+	r.SetRule("One case = one stream message on a partially constructed cluster.Node (real stream cache, real finish path, proposer = real fsm on a real meta DB): 1-3 lanes, 2-12 cache-only events (open, text delta, JSON snapshot) with duplicate ids, optional durable close/error/cancel of a lane, then a leader cache loss of a random kind (none | reset-after-restore | new leader node with empty cache | route-authority loss = Slot leader moves to node 2 and back | restore pause+resume | hash slot rebalanced to a Slot led by node 2 and back with no Slot leader change | hash slot rebalanced away and this node later elected leader of the target Slot; routing transitions are installed through Node.updateRouteAuthorityTable on per-node routers; in half of the routing cases the other leader (a second Node with its own cache, same durable proposer) acknowledges 1-3 interim cache-only events) either right before stream.finish (unit finish) or followed by 1-4 more cache-only events of the same message (unit finish_midstream), then stream.finish directly or through the finish coalescer. Non-trivial = acknowledged non-durable deltas existed when the cache was lost; distinct = (loss kind, position, coalescer, lanes, lanes with outstanding deltas, explicit terminals, events after loss per lane).")
 	r.Assume("Finish payloads without a snapshot; a finish whose payload carries a snapshot is documented as self-sufficient (pkg/cluster/FLOW.md) and only counted.")
 	r.Note("part_ii", "constructed in-package without a running node: Node{cfg,router,messageEventStreamCache,[messageEventFinishCoalescer],proposer} with started=true; proposer applies commands to fsm.NewStateMachineWithHashSlots on meta.Open(t.TempDir())")
 
@@ -181,17 +213,14 @@ func c40RunFinish(t *testing.T, unit string, midOnly bool) {
 	if err != nil {
 		t.Fatalf("state machine: %v", err)
 	}
-	router, err := c40Router(1, 9)
-	if err != nil {
-		t.Fatalf("router: %v", err)
-	}
-	lostRouter, err := c40Router(2, 10) // the table after leadership moved to node 2
+	router, err := c40Router() // only used to hash keys to hash slots (independent of Slot ownership)
 	if err != nil {
 		t.Fatalf("router: %v", err)
 	}
 	proposer := &c40Proposer{router: router, sm: sm}
 	ctx := context.Background()
-	lossKinds := []string{"none", "reset-after-restore", "new-leader-node", "route-authority-loss", "restore-pause-resume"}
+	lossKinds := []string{"none", "reset-after-restore", "new-leader-node", "route-authority-loss", "restore-pause-resume",
+		"hashslot-rebalance-away-and-back", "hashslot-rebalance-then-elected-target-leader"}
 	laneKeys := []string{"", "tool", "think"}
 	var clock int64
 	sigSeen := map[string]int{}
@@ -215,8 +244,20 @@ func c40RunFinish(t *testing.T, unit string, midOnly bool) {
 		}
 		rng := r.Rand(stream, uint64(i))
 		coalesce := rng.IntN(4) == 0
-		node := c40NewNode(router, proposer, coalesce)
-		channel := fmt.Sprintf("fin-ch-%d", i)
+		node := c40NewNode(1, proposer, coalesce)
+		// a channel whose hash slot H belongs to Slot 1 (led by this node) initially
+		channel, hashSlot := "", uint16(0)
+		for j := 0; ; j++ {
+			channel = fmt.Sprintf("fin-ch-%d-%d", i, j)
+			route, err := router.RouteKey(channel)
+			if err != nil {
+				t.Fatalf("route: %v", err)
+			}
+			if route.SlotID == 1 {
+				hashSlot = route.HashSlot
+				break
+			}
+		}
 		msg := fmt.Sprintf("fin-m-%d", i)
 		loss := lossKinds[rng.IntN(len(lossKinds))]
 		if i%5 == 0 {
@@ -330,13 +371,66 @@ func c40RunFinish(t *testing.T, unit string, midOnly bool) {
 			}
 		}
 		// ---- leader cache loss
+		// install applies a routing transition through the production path of node x
+		install := func(x *Node, what string, update func(r *routing.Router) error) {
+			if err := x.updateRouteAuthorityTable(func() error { return update(x.router) }); err != nil {
+				r.Inconclusive(fmt.Sprintf("case %d: install %s: %v", i, what, err))
+				aborted = true
+			}
+			hist = append(hist, fmt.Sprintf("ROUTING(node %d):%s", x.cfg.NodeID, what))
+		}
+		leaders := func(status ...routing.SlotStatus) func(*routing.Router) error {
+			return func(r *routing.Router) error { r.UpdateSlotLeaders(status); return nil }
+		}
+		snapshot := func(rev uint64, moved bool) func(*routing.Router) error {
+			return func(r *routing.Router) error { return r.UpdateControlSnapshot(c40ControlSnapshot(rev, moved, hashSlot)) }
+		}
+		// interim: while this node has no authority over H the OTHER leader (node 2, its
+		// own cache, same durable proposer) acknowledges further cache-only events
+		interimEvents := 0
+		interim := func(away func(*routing.Router) error, back func(*routing.Router) error, awayName, backName string) {
+			if rng.IntN(2) == 0 {
+				return
+			}
+			other := c40NewNode(2, proposer, false)
+			install(other, awayName, away)
+			self := node
+			node, knownIDs = other, map[string]bool{}
+			lost = true
+			m := 1 + rng.IntN(3)
+			for j := 0; j < m && !aborted; j++ {
+				cacheEvent(500 + j)
+				interimEvents++
+			}
+			install(other, backName, back) // node 2 loses authority over H again
+			node = self
+			r.Count("loss.with_interim_events_acknowledged_by_other_leader", 1)
+		}
 		switch loss {
 		case "reset-after-restore":
 			node.messageEventStreamCache.resetAfterRestore()
 		case "new-leader-node":
-			node = c40NewNode(router, proposer, coalesce) // same durable state, empty cache
+			node = c40NewNode(1, proposer, coalesce) // same durable state, empty cache
 		case "route-authority-loss":
-			node.clearMessageEventStreamCacheForLostLocalAuthority(router.Table(), lostRouter.Table())
+			// Slot 1 elects node 2, later node 1 again
+			away := leaders(routing.SlotStatus{SlotID: 1, Leader: 2, LeaderTerm: 10})
+			back := leaders(routing.SlotStatus{SlotID: 1, Leader: 1, LeaderTerm: 11})
+			install(node, "slot1-leader->node2", away)
+			interim(away, back, "slot1-leader->node2", "slot1-leader->node1")
+			install(node, "slot1-leader->node1", back)
+		case "hashslot-rebalance-away-and-back":
+			// H moves to Slot 2 (led by node 2) and back; NO Slot leader changes at any point
+			away, back := snapshot(2, true), snapshot(3, false)
+			install(node, "H->slot2", away)
+			interim(away, back, "H->slot2", "H->slot1")
+			install(node, "H->slot1", back)
+		case "hashslot-rebalance-then-elected-target-leader":
+			// H moves to Slot 2 (led by node 2); later this node is elected leader of Slot 2
+			away := snapshot(2, true)
+			back := leaders(routing.SlotStatus{SlotID: 2, Leader: 1, LeaderTerm: 10})
+			install(node, "H->slot2", away)
+			interim(away, back, "H->slot2", "slot2-leader->node1")
+			install(node, "slot2-leader->node1", back)
 		case "restore-pause-resume":
 			node.messageEventStreamCache.pauseForRestore()
 			if rng.IntN(2) == 0 {
@@ -348,6 +442,16 @@ func c40RunFinish(t *testing.T, unit string, midOnly bool) {
 				}
 			}
 			node.messageEventStreamCache.resumeAfterRestore()
+		}
+		if aborted {
+			continue
+		}
+		// lanes with acknowledged non-durable deltas at the moment of the finish-relevant loss
+		outstanding = 0
+		for _, l := range lanes {
+			if l.acked > 0 && !l.terminal {
+				outstanding++
+			}
 		}
 		if loss != "none" {
 			lost = true
@@ -380,12 +484,7 @@ func c40RunFinish(t *testing.T, unit string, midOnly bool) {
 			continue
 		}
 		proposals := proposer.callCount() - before
-		route, err := router.RouteKey(channel)
-		if err != nil {
-			r.Inconclusive("route: " + err.Error())
-			break
-		}
-		states, err := db.ForHashSlot(route.HashSlot).ListMessageEventStates(ctx, channel, 2, msg, 100)
+		states, err := db.ForHashSlot(hashSlot).ListMessageEventStates(ctx, channel, 2, msg, 100)
 		if err != nil {
 			r.Inconclusive("ListMessageEventStates: " + err.Error())
 			break
@@ -405,7 +504,7 @@ func c40RunFinish(t *testing.T, unit string, midOnly bool) {
 		}
 		r.Count("finish."+class+"."+map[bool]string{true: "ok", false: "error"}[finishErr == nil], 1)
 		w := map[string]any{"case": i, "loss": loss, "coalescer": coalesce, "finish_error": fmt.Sprint(finishErr), "finish_row": fmt.Sprintf("%+v", fin),
-			"proposals_by_finish": proposals, "history": hist}
+			"proposals_by_finish": proposals, "interim_events_by_other_leader": interimEvents, "history": hist}
 		lostDeltas := lost && outstanding > 0
 		// G: a closed finish marker implies every lane is durable with the full fold
 		dropped := []string{}
@@ -425,7 +524,7 @@ func c40RunFinish(t *testing.T, unit string, midOnly bool) {
 		w["dropped"] = dropped
 		switch {
 		case class == "loss-before-finish" && lostDeltas && finishErr == nil:
-			violation("finish-succeeded-after-cache-loss", w)
+			violation("finish-succeeded-after-cache-loss:"+loss, w)
 		case class == "loss-before-finish" && lostDeltas && finClosed:
 			violation("closed-finish-row-written-by-failed-finish-after-cache-loss", w)
 		case class == "loss-mid-stream" && len(dropped) > 0:
@@ -451,7 +550,7 @@ func c40RunFinish(t *testing.T, unit string, midOnly bool) {
 					term++
 				}
 			}
-			r.Nontrivial(fmt.Sprintf("%s|mid=%v|co=%v|lanes=%d|out=%d|term=%d|after=%d", loss, midStream, coalesce, len(lanes), outstanding, term, afterLossEvents))
+			r.Nontrivial(fmt.Sprintf("%s|mid=%v|co=%v|lanes=%d|out=%d|term=%d|after=%d|interim=%d", loss, midStream, coalesce, len(lanes), outstanding, term, afterLossEvents, interimEvents))
 		}
 		if r.WantSample() && lostDeltas {
 			r.Sample(map[string]any{"case": i, "loss": loss, "mid_stream": midStream, "finish_error": fmt.Sprint(finishErr), "finish_row_exists": finExists, "history": hist})
